@@ -3,9 +3,9 @@
    largest aperture, refuse below the smallest, interp1d = exact piecewise-linear PLin.fval, single aperture repeated),
    ApertureM.interp_clamp_unit_m (requests in another length unit), ApertureM.aperture_at / sed_interp_var_m
    (SED.interpolate_variable).  Proofs: Interp, Fit3Proofs, ApertureM. *)
-From Coq Require Import QArith List.
+From Coq Require Import QArith List Qminmax.
 Import ListNotations.
-From SedV Require Import PLin Interp FitModel Fit3Proofs ApertureM.
+From SedV Require Import PLin Interp FitModel Fit3Proofs ApertureM LinBracket.
 Open Scope Q_scope.
 
 Theorem C13_knot : forall tab p, incr tab -> (2 <= length tab)%nat -> In p tab ->
@@ -41,6 +41,16 @@ Theorem C13_variable : forall lg pw, (forall a b, a == b -> pw a == pw b) ->
   forall filt p, incr (lgtab lg filt) -> In p filt -> pw (lg (snd p)) == snd p ->
   aperture_at lg pw filt (fst p) == snd p.
 Proof. exact aperture_at_knot. Qed.
+
+(* between two knots the interpolated flux (the value C13_between returns) never leaves the range of the two bracketing
+   table values: no overshoot *)
+Theorem C13_bracketed : forall p0 p1 r, fst p0 < r -> r <= fst p1 ->
+  Qmin (snd p0) (snd p1) <= lin p0 p1 r /\ lin p0 p1 r <= Qmax (snd p0) (snd p1).
+Proof. exact lin_bracketed. Qed.
+
+(* where the tabulated flux does not decrease with aperture, neither does the interpolated flux *)
+Theorem C13_monotone : forall p0 p1 r r', fst p0 < fst p1 -> snd p0 <= snd p1 -> r <= r' -> lin p0 p1 r <= lin p0 p1 r'.
+Proof. exact lin_monotone. Qed.
 
 Example C13_example : interp_clamp_m [(1, 10); (3, 30); (5, 20)] 4 = Some (fval [(1, 10); (3, 30); (5, 20)] 4)
   /\ fval [(1, 10); (3, 30); (5, 20)] 4 == 25 /\ interp_clamp_m [(1, 10); (3, 30); (5, 20)] 9 = Some 20 /\ interp_clamp_m [(1, 10); (3, 30); (5, 20)] (1#2) = None.
